@@ -104,9 +104,11 @@ class Sum(Factory, Container):
 
     @inheritdoc(Container)
     def __iadd__(self, other):
-        self.entries += other.entries
-        self.sum += other.sum
-        return self
+        if isinstance(other, Sum):
+            self.entries += other.entries
+            self.sum += other.sum
+            return self
+        raise ContainerException(f"cannot add {self.name} and {other.name}")
 
     @inheritdoc(Container)
     def __mul__(self, factor):
